@@ -138,3 +138,199 @@ fn u19_1_get_size_high() {
         assert!(high == high0, "a null high pointer is not written through");
     }
 }
+
+// ------------------------------------------------------------------------------------ U19.3 caller-buffer writes (E11 blocks)
+/// stand-in for ArchiveHandle in the name-copy block (the block calls .path() only)
+pub struct PathOnly<'a> {
+    pub p: &'a str,
+}
+impl<'a> PathOnly<'a> {
+    pub fn path(&self) -> &str {
+        self.p
+    }
+}
+
+fn small_ascii(maxlen: usize) -> String {
+    let len: usize = kani::any();
+    kani::assume(len <= maxlen);
+    let mut s = String::with_capacity(4);
+    let mut i = 0;
+    while i < len {
+        let c: u8 = kani::any();
+        kani::assume(c < 0x80);
+        s.push(c as char);
+        i += 1;
+    }
+    s
+}
+
+// SFileGetArchiveName: succeeds exactly when name + terminator fit the caller's buffer, writes the name and one NUL, and never
+// touches a byte at or beyond buffer_size (canary bytes inside the same object + Kani's pointer checks at its end)
+// @harness unit=U19.3 props=C19 kind=bounded bound="archive path <= 2 ASCII bytes (NUL included), caller buffer 1..4 bytes" timeout=600 target="lib.rs: SFileGetArchiveName name-copy statements (E11 block)" oracle=ffi_cursor
+#[kani::proof]
+#[kani::unwind(8)]
+#[kani::stub(alloc::fmt::format, stub_format)]
+fn u19_3_archive_name_copy() {
+    let raw: [u8; 2] = kani::any();
+    kani::assume(raw[0] < 0x80 && raw[1] < 0x80);
+    let n: usize = kani::any();
+    kani::assume(n <= 2);
+    let h = PathOnly { p: unsafe { core::str::from_utf8_unchecked(&raw[..n]) } };
+    let has_nul = (n >= 1 && raw[0] == 0) || (n >= 2 && raw[1] == 0);
+    let size: u32 = kani::any();
+    kani::assume(size >= 1 && size <= 4); // the function has rejected a null buffer and size 0 before these statements
+    let mut buf = [0xEEu8; 5];
+    let ok = unsafe { blk_archive_name_copy(&h, buf.as_mut_ptr() as *mut c_char, size) };
+    assert!(ok == (!has_nul && n + 1 <= size as usize), "success exactly when the name and its terminator fit");
+    let j: usize = kani::any();
+    kani::assume(j < 5);
+    if j >= size as usize || !ok {
+        assert!(buf[j] == 0xEE, "no byte at or beyond buffer_size is written; nothing is written on failure");
+    } else if j < n {
+        assert!(buf[j] == raw[j], "name bytes in order");
+    } else if j == n {
+        assert!(buf[j] == 0, "terminated");
+    }
+}
+
+// get_file_info (whole function): the only classes answered are size and position, each needs 8 bytes, *size_needed is
+// told, and a buffer shorter than that is never written
+// @harness unit=U19.3 props=C19 kind=complete timeout=600 target="lib.rs: get_file_info (whole function; every class, buffer size, size and cursor value)" oracle=ffi_cursor
+#[kani::proof]
+#[kani::unwind(4)]
+#[kani::stub(alloc::fmt::format, stub_format)]
+fn u19_3_get_file_info() {
+    let fh = FileHandle { archive_handle: 1, filename: String::new(), data: Vec::new(), position: kani::any(), size: kani::any() };
+    let class: u32 = kani::any();
+    let size: u32 = kani::any();
+    let mut buf = [0xEEEE_EEEE_EEEE_EEEEu64; 2];
+    let mut needed: u32 = 77;
+    let use_needed: bool = kani::any();
+    let np = if use_needed { &mut needed as *mut u32 } else { core::ptr::null_mut() };
+    let ok = unsafe { get_file_info(&fh, class, buf.as_mut_ptr() as *mut c_void, size, np) };
+    let known = class == SFILE_INFO_FILE_SIZE || class == SFILE_INFO_POSITION;
+    assert!(ok == (known && size >= 8), "answered exactly when the class is known and 8 bytes fit");
+    if ok {
+        assert!(buf[0] == if class == SFILE_INFO_FILE_SIZE { fh.size } else { fh.position as u64 }, "the value asked for");
+    } else {
+        assert!(buf[0] == 0xEEEE_EEEE_EEEE_EEEE, "a refused call writes nothing");
+    }
+    assert!(buf[1] == 0xEEEE_EEEE_EEEE_EEEE, "never more than 8 bytes");
+    assert!(needed == if known && use_needed { 8 } else { 77 }, "*size_needed receives 8 for a known class");
+    core::mem::forget(fh);
+}
+
+/// stand-ins for FindHandle / FileEntry in the scan loop of SFileFindNextFile (uses file_list, current_index, matches_mask, .name)
+pub struct ScanEntry {
+    pub name: &'static str,
+    pub id: usize,
+}
+pub struct FindScan {
+    pub file_list: Vec<ScanEntry>,
+    pub current_index: usize,
+}
+impl FindScan {
+    fn matches_mask(&self, name: &str) -> bool {
+        name.len() == 1
+    }
+}
+
+// SFileFindNextFile scan loop: returns the first entry at or after the cursor that matches the mask and leaves the cursor just
+// behind it; with no such entry it reports the end and parks the cursor at the end.  Two calls in a row never return one entry twice.
+// @harness unit=U19.3 props=C19 kind=bounded bound="file lists of <= 4 entries, every match pattern and cursor" timeout=600 target="lib.rs: SFileFindNextFile scan loop (E11 block)" oracle=ffi_cursor
+#[kani::proof]
+#[kani::unwind(7)]
+#[kani::stub(alloc::fmt::format, stub_format)]
+fn u19_3_find_next_scan() {
+    let n: usize = kani::any();
+    kani::assume(n <= 4);
+    let m: [bool; 4] = kani::any();
+    let mut list = Vec::with_capacity(4);
+    let mut i = 0;
+    while i < n {
+        list.push(ScanEntry { name: if m[i] { "m" } else { "" }, id: i });
+        i += 1;
+    }
+    let c0: usize = kani::any();
+    kani::assume(c0 <= n);
+    let mut fs = FindScan { file_list: list, current_index: c0 };
+    let r1 = blk_find_next_scan(&mut fs);
+    let mut first = n;
+    let mut k = n;
+    while k > c0 {
+        k -= 1;
+        if m[k] { first = k; }
+    }
+    match r1 {
+        Some(id) => { assert!(first < n && id == first, "the first matching entry at or after the cursor"); assert!(fs.current_index == first + 1, "cursor just behind the entry returned"); }
+        None => { assert!(first == n, "the end is reported only when nothing matches any more"); assert!(fs.current_index == n, "cursor parked at the end"); }
+    }
+    let r2 = blk_find_next_scan(&mut fs);
+    if let (Some(a), Some(b)) = (r1, r2) {
+        assert!(b > a, "no entry is returned twice");
+    }
+    core::mem::forget(fs);
+}
+
+/// stand-in for the three global tables (Mutex<HashMap<usize, _>>) in the body of SFileCloseArchive: an association list with the
+/// two HashMap methods the statements use; entry = (handle id, id of the owning archive)
+pub struct OwnedBy {
+    pub archive_handle: usize,
+}
+pub struct Assoc {
+    pub e: [(usize, OwnedBy, bool); 2],
+}
+impl Assoc {
+    pub fn retain<F: FnMut(&usize, &mut OwnedBy) -> bool>(&mut self, mut f: F) {
+        let mut i = 0;
+        while i < 2 {
+            if self.e[i].2 {
+                let keep = f(&self.e[i].0, &mut self.e[i].1);
+                self.e[i].2 = keep;
+            }
+            i += 1;
+        }
+    }
+    pub fn remove(&mut self, k: &usize) -> Option<usize> {
+        let mut i = 0;
+        while i < 2 {
+            if self.e[i].2 && self.e[i].0 == *k {
+                self.e[i].2 = false;
+                return Some(i);
+            }
+            i += 1;
+        }
+        None
+    }
+    fn any() -> Assoc {
+        let a = Assoc { e: [(kani::any(), OwnedBy { archive_handle: kani::any() }, kani::any()), (kani::any(), OwnedBy { archive_handle: kani::any() }, kani::any())] };
+        kani::assume(!(a.e[0].2 && a.e[1].2 && a.e[0].0 == a.e[1].0)); // keys are unique
+        a
+    }
+}
+
+// SFileCloseArchive body: closing archive A removes A, every open-file handle and every search handle owned by A, and nothing else
+// @harness unit=U19.3 props=C19 kind=bounded bound="tables of <= 2 live entries each (association-list stand-in for the three HashMaps), every handle value" timeout=600 target="lib.rs: SFileCloseArchive (E11 block: the whole body, global tables replaced by association lists)" oracle=ffi_cursor
+#[kani::proof]
+#[kani::unwind(4)]
+#[kani::stub(alloc::fmt::format, stub_format)]
+fn u19_3_close_archive_purges_own_handles() {
+    let raw: usize = kani::any();
+    let mut files = Assoc::any();
+    let mut finds = Assoc::any();
+    let mut archives = Assoc::any();
+    let live0 = [files.e[0].2, files.e[1].2, finds.e[0].2, finds.e[1].2, archives.e[0].2, archives.e[1].2];
+    let was_open = raw != 0 && ((archives.e[0].2 && archives.e[0].0 == raw) || (archives.e[1].2 && archives.e[1].0 == raw));
+    let ok = blk_close_archive_purge(raw as HANDLE, &mut files, &mut finds, &mut archives);
+    assert!(ok == was_open, "closing succeeds exactly for a live archive handle");
+    let i: usize = kani::any();
+    kani::assume(i < 2);
+    if was_open {
+        assert!(files.e[i].2 == (live0[i] && files.e[i].1.archive_handle != raw), "exactly the open files of the closed archive are invalidated");
+        assert!(finds.e[i].2 == (live0[2 + i] && finds.e[i].1.archive_handle != raw), "exactly the search handles of the closed archive are invalidated");
+        assert!(archives.e[i].2 == (live0[4 + i] && archives.e[i].0 != raw), "exactly the closed archive leaves the table");
+    }
+    if raw == 0 {
+        assert!(files.e[i].2 == live0[i] && finds.e[i].2 == live0[2 + i] && archives.e[i].2 == live0[4 + i], "a null handle changes nothing");
+    }
+}
